@@ -492,7 +492,14 @@ pub fn conclude(ctx: &Ctx, o: &mut Outcome, rejudge: &dyn Fn(&Case) -> Vec<Fail>
     let mut violations = 0;
     if !unknown.is_empty() {
         // report distinct failure kinds, smallest input first
-        unknown.sort_by_key(|(c, f)| (f.kind.clone(), c.tcs.iter().map(|t| t.len()).sum::<usize>() + c.tcs.len() + c.cfg.bits.count_ones() as usize));
+        // failures that no known-finding guard describes come first: they are the sharper replay
+        unknown.sort_by_key(|(c, f)| {
+            (classify(ctx, c, f, rejudge).is_some(), f.kind.clone(), c.tcs.iter().map(|t| t.len()).sum::<usize>() + c.tcs.len() + c.cfg.bits.count_ones() as usize)
+        });
+        let any_sharp = unknown.iter().any(|(c, f)| classify(ctx, c, f, rejudge).is_none());
+        if any_sharp {
+            unknown.retain(|(c, f)| classify(ctx, c, f, rejudge).is_none());
+        }
         let mut seen_kinds = BTreeSet::new();
         for (c, f) in &unknown {
             if !seen_kinds.insert(f.kind.clone()) || violations >= 3 {
